@@ -38,6 +38,7 @@ func (n *Notifier) SubscribeContext(ctx context.Context, key any, target any) {
 		valuePtr = value.Pointer()
 	)
 
+	verifAt("notifier.sub.lock", n, 0)
 	n.mutex.Lock()
 	defer n.mutex.Unlock()
 
@@ -82,6 +83,7 @@ func (n *Notifier) SubscribeCancel(ctx context.Context, key any, target any) con
 	}()
 	n.SubscribeContext(ctx, key, target)
 	go func() {
+		verifAt("notifier.subcancel.recv", n, 0)
 		<-ctx.Done()
 		n.Unsubscribe(key, target)
 	}()
@@ -99,6 +101,7 @@ func (n *Notifier) Unsubscribe(key any, target any) {
 		valuePtr = value.Pointer()
 	)
 
+	verifAt("notifier.unsub.lock", n, 0)
 	n.mutex.Lock()
 	defer n.mutex.Unlock()
 
@@ -133,6 +136,7 @@ func (n *Notifier) PublishContext(ctx context.Context, key any, value any) {
 		return
 	}
 
+	verifAt("notifier.pub.rlock", n, 0)
 	n.mutex.RLock()
 	defer n.mutex.RUnlock()
 
@@ -166,6 +170,7 @@ func (n *Notifier) PublishContext(ctx context.Context, key any, value any) {
 	}
 
 	for len(successCases) != 0 {
+		verifAt("notifier.pub.select", n, len(successCases))
 		var (
 			exitIndex, _, _ = reflect.Select(append(append(append(make([]reflect.SelectCase, 0, len(exitCases)+len(failureCases)+len(successCases)), exitCases...), failureCases...), successCases...))
 			failureIndex    = exitIndex - len(exitCases)
